@@ -477,6 +477,10 @@ def synthetic(ctx: Ctx):
     for nn in (36, 40):
         add(f"A-product-{nn}-zero-row", ["a", "b"], [blank(phasenodes=[[0, 1, ["a"]]] * nn + [[1, 4, ["b"]]])], rows="all")
         cases[-1]["batch"] = 4          # all four rows in ONE call of evaluate
+    # a vanishing term next to a term of size 2^40 (the zero carries the power 0: it must not drag the alignment of the sum); rows chosen
+    # so that at most one of the two graphs is non-zero (2 + 2^40 itself is not representable in int32 coefficients)
+    add("zero-summand-low-power", ["a", "b"], [blank(phasenodes=[[0, 1, ["a"]]]), blank(phasenodes=[[0, 1, ["b"]]] * 40)], rows=[[1, 0], [1, 1], [0, 1]])
+    cases[-1]["batch"] = 3
     add("static-approx", ["a", "b"], [blank(approx=[0.3, -1.7], phasenodes=[[1, 4, ["a"]]]), blank(phase=[1, 3], halfpi1=[["b"]], has_halfpi_keys=[1]),
                                       blank(phase=[5, 8], approx=[-0.2, 0.4], power2=3), blank(phase=[1, 4], power2=-2)])
     add("approx-with-exact-graphs", ["a", "b"], [blank(phasenodes=[[3, 4, ["a", "b"]]]), blank(approx=[2.5, 0.0], pi_pair=[[["a"], ["b"]]])])
